@@ -42,6 +42,9 @@ def gen_async_node(rng, kinds):
         nd = {"kind": "map_async", "f": rng.choice([["inc"], ["dbl"], ["id"]]), "parallelism": rng.choice([1, 1, 2, 3])}
         if rng.random() < 0.2:
             nd["callfail"] = [3, rng.choice([0, 1, 2])]     # the callable itself raises for some arguments
+        r = rng.random()
+        if r < 0.3 and not nd.get("callfail"):
+            nd["call_form"] = "args" if r < 0.15 else "kwargs"      # map_async(func, *args, **kwargs) calls func(x, *args, **kwargs)
         return nd
     if k == "timed_window":
         return {"kind": "timed_window", "interval": rng.choice([1, 2])}
@@ -60,9 +63,15 @@ def gen_sync_node(rng, order_free=False):
     # after a keyed partition the cross-key order is legitimately timing dependent: only position-independent nodes
     k = rng.choice(["map", "map", "filter"] if order_free else ["map", "map", "filter", "slice", "sliding_window"])
     if k == "map":
-        return {"kind": "map", "f": rng.choice([["inc"], ["dbl"], ["id"]])}
+        nd = {"kind": "map", "f": rng.choice([["inc"], ["dbl"], ["id"]])}
+        if rng.random() < 0.3:
+            nd["call_form"] = rng.choice(["args", "kwargs"])
+        return nd
     if k == "filter":
-        return {"kind": "filter", "f": rng.choice([["isEven"], ["gt", 1]])}
+        nd = {"kind": "filter", "f": rng.choice([["isEven"], ["gt", 1]])}
+        if rng.random() < 0.3:
+            nd["call_form"] = rng.choice(["args", "kwargs"])
+        return nd
     if k == "slice":
         return {"kind": "slice", "start": rng.choice([None, 1]), "end": None, "step": rng.choice([None, 2])}
     return {"kind": "sliding_window", "n": 2, "partial": True}
